@@ -867,10 +867,11 @@ func (f *functionQuery) Evaluate(t iterator) interface{} {
 }
 
 func (f *functionQuery) Clone() query {
-	if f.Input == nil {
-		return &functionQuery{Func: f.Func}
-	}
-	return &functionQuery{Input: f.Input.Clone(), Func: f.Func}
+	// Input (set for position() and last() only) is consulted for its node test,
+	// which keeps no state; it is never iterated, so the clones can share it.
+	// Cloning it made the cost of Select double with every further predicate
+	// that uses position() or last() on one step.
+	return &functionQuery{Input: f.Input, Func: f.Func}
 }
 
 func (f *functionQuery) ValueType() resultType {
@@ -1233,8 +1234,10 @@ func (q *lastFuncQuery) Select(t iterator) NodeNavigator {
 
 func (q *lastFuncQuery) Evaluate(t iterator) interface{} {
 	if !q.counted {
+		// Input is shared with the other clones (see Clone): iterate a private copy.
+		input := q.Input.Clone()
 		for {
-			node := q.Input.Select(t)
+			node := input.Select(t)
 			if node == nil {
 				break
 			}
@@ -1246,7 +1249,9 @@ func (q *lastFuncQuery) Evaluate(t iterator) interface{} {
 }
 
 func (q *lastFuncQuery) Clone() query {
-	return &lastFuncQuery{Input: q.Input.Clone()}
+	// The input is copied when (and if) the count is taken, not here: copying it
+	// with every clone doubled the cost per stacked [..][last()] predicate.
+	return &lastFuncQuery{Input: q.Input}
 }
 
 func (q *lastFuncQuery) ValueType() resultType {
